@@ -885,7 +885,20 @@ func fieldOfAddr(v ssa.Value) (*types.Var, ssa.Value) {
 	if !ok {
 		return nil, nil
 	}
-	return st.Field(fa.Field), fa.X
+	// a promoted field (the field of an embedded struct) is a field of the object that embeds it
+	base := fa.X
+	for i := 0; i < 4; i++ {
+		outer, isFA := base.(*ssa.FieldAddr)
+		if !isFA {
+			break
+		}
+		ost, isSt := derefType(outer.X.Type()).Underlying().(*types.Struct)
+		if !isSt || !ost.Field(outer.Field).Embedded() {
+			break
+		}
+		base = outer.X
+	}
+	return st.Field(fa.Field), base
 }
 
 // loadedField: if v is *(&x.f) return f and x.
